@@ -147,6 +147,10 @@ var c18Stmts = []c18Stmt{
 	{"delete-parens-or", "DELETE FROM t WHERE (a = ?) OR b = ?", 2, true, false, nil},
 	{"insert-one", "INSERT INTO t (id, a, b) VALUES (?, ?, ?)", 3, true, false, map[int]int64{0: 30}},
 	{"insert-reordered-two-rows", "INSERT INTO t (a, id, b) VALUES (?, ?, ?), (?, ?, 5)", 5, true, false, map[int]int64{1: 30, 4: 40}},
+	// literals of every kind before a key column bound to an argument
+	{"insert-number-before-key-arg", "INSERT INTO t (a, b, id) VALUES (7, ?, ?), (?, ?, ?)", 5, true, false, map[int]int64{1: 30, 4: 40}},
+	{"insert-mixed-literals-before-key-arg", "INSERT INTO t (a, b, id) VALUES (?, 7, ?), (-3, 4 + 1, ?)", 3, true, false, map[int]int64{1: 30, 2: 40}},
+	{"upsert-number-before-key-arg", "INSERT INTO t (a, b, id) VALUES (7, ?, ?), (?, 8, ?) ON DUPLICATE KEY UPDATE b = ?", 5, true, false, map[int]int64{1: 10, 3: 30}},
 	{"upsert-new-row", "INSERT INTO t (id, a, b) VALUES (?, ?, ?) ON DUPLICATE KEY UPDATE a = ?", 4, true, false, map[int]int64{0: 30}},
 	{"upsert-existing-row", "INSERT INTO t (id, a, b) VALUES (?, ?, ?) ON DUPLICATE KEY UPDATE a = ?", 4, true, false, map[int]int64{0: 10}},
 	{"upsert-mixed-two-rows", "INSERT INTO t (id, a, b) VALUES (?, ?, ?), (?, ?, ?) ON DUPLICATE KEY UPDATE a = ?", 7, true, false, map[int]int64{0: 10, 3: 30}},
@@ -184,6 +188,7 @@ var c18Stmts = []c18Stmt{
 	{"null-insert-literal", "INSERT INTO t (id, a, b) VALUES (?, ?, NULL)", 2, true, false, map[int]int64{0: 30}},
 	{"null-insert-omitted", "INSERT INTO t (id, a) VALUES (?, ?)", 2, true, false, map[int]int64{0: 30}},
 	{"null-insert-arg", "INSERT INTO t (id, a, b) VALUES (?, ?, ?)", 3, true, false, map[int]int64{0: 30}},
+	{"null-insert-null-before-key-arg", "INSERT INTO t (a, b, id) VALUES (?, NULL, ?), (?, ?, ?)", 5, true, false, map[int]int64{1: 30, 4: 40}},
 	{"null-upsert-set-null", "INSERT INTO t (id, a, b) VALUES (?, ?, ?) ON DUPLICATE KEY UPDATE b = NULL", 3, true, false, map[int]int64{0: 10}},
 	{"delete-no-where", "DELETE FROM t", 0, true, false, nil},
 }
@@ -454,6 +459,32 @@ func VerifC03TwoStatements() {
 	}
 	if len(written) > 0 {
 		vrt.Assert(c18LockKeysCover(w, written), "c03/two/lock-keys-cover-every-written-row/"+f.name+"+"+s.name)
+	}
+}
+
+// VerifC18AutoStep: two batch INSERTs with generated keys, one after the other in one
+// process, on servers (or sessions) whose auto_increment_increment differs: each after
+// image holds exactly the rows its own statement inserted.
+func VerifC18AutoStep() {
+	c18WantNull = false
+	steps := []int64{1, 2, 5}
+	st := c18Stmt{"insert-auto-batch", "INSERT INTO t (a, b) VALUES (?, ?), (?, 8), (7, ?)", 4, true, false, nil}
+	for round := 0; round < 2; round++ {
+		w := c18Setup(false, true)
+		w.d.autoStep = steps[vrt.Choice([]string{"first.step", "second.step"}[round], len(steps))]
+		tag := []string{"first", "second"}[round]
+		tx, err := w.c.BeginTx(w.ctx, driver.TxOptions{})
+		vrt.Assert(err == nil && tx != nil, "c18/autostep/begin-ok")
+		_, err = w.c.ExecContext(w.ctx, st.query, c18ArgsTagged(st, tag+"."))
+		vrt.Observe(tag+".journal", strings.Join(w.d.journal, " || "))
+		vrt.Assert(err == nil && w.d.bad == "", "c18/autostep/statement-accepted/"+tag)
+		if err != nil || w.d.bad != "" {
+			return
+		}
+		afters := []*types.RecordImage{c18Union(w.c.txCtx.RoundImages.AfterImages())}
+		vrt.Reach("c18/autostep/" + tag)
+		vrt.Assert(c18ImageMatches(w.d, afters[0], w.d.changedAfter, true), "c18/autostep/after-image=rows-inserted/"+tag)
+		vrt.Assert(c18LockKeysCover(w, w.d.changedAfter), "c18/autostep/lock-keys-cover-inserted-rows/"+tag)
 	}
 }
 
